@@ -374,6 +374,12 @@ def narrow_contexts():
             decimal.BasicContext.copy(), decimal.ExtendedContext.copy(),
             decimal.Context(prec=2, rounding=decimal.ROUND_UP, Emax=9,
                             Emin=-9, traps=[]),
+            # a strict caller: every inexact / rounded result and every
+            # float <-> Decimal mix is an error in this thread
+            decimal.Context(prec=3, traps=[
+                decimal.Inexact, decimal.Rounded, decimal.Subnormal,
+                decimal.FloatOperation, decimal.InvalidOperation,
+                decimal.Overflow, decimal.Underflow, decimal.Clamped]),
         ]
     return NARROW_CONTEXTS
 
